@@ -1,5 +1,6 @@
 import Skc.Lemmas.Conv
 import Skc.Lemmas.ConvCp
+import Skc.Lemmas.ConvSub
 
 /-! # C05 — dense labels and sparse detections describe the same events
 
@@ -70,6 +71,35 @@ theorem coll_label_covered : ∀ (anoms : List (Nat × Nat)) (lo n k j i : Nat) 
     have := coll_label_covered rest e0 n (k + 1) j i s e hv' h h1 h2
     omega
 
+/-- **C05, subset anomalies (MVCAPA), round trip**: any valid sparse output (rows sorted, pairwise
+    disjoint, non-empty, inside `[0,n]`, adjacent allowed; affected columns non-empty, strictly
+    increasing, below `p`) survives sparse → dense → sparse unchanged, columns included. -/
+theorem sub_dense_sparse_roundtrip (anoms : List ((Nat × Nat) × List Nat)) (n p : Nat)
+    (h : ValidSub 0 anoms n p) : subD2S (subS2D anoms n p) p = anoms :=
+  sub_roundtrip anoms n p h
+
+/-- **C05, subset anomalies, dense labels**: cell `(i, j)` carries label `k+1` exactly when row `i`
+    lies in the `k`-th anomaly and column `j` is one of its affected columns … -/
+theorem sub_label_iff (anoms : List ((Nat × Nat) × List Nat)) (n p k i j : Nat)
+    (hk : k < anoms.length) (h : ValidSub 0 anoms n p) :
+    subLabelAt anoms 0 i j = k + 1 ↔
+      (anoms[k]).1.1 ≤ i ∧ i < (anoms[k]).1.2 ∧ j ∈ (anoms[k]).2 :=
+  subLabel_iff anoms n p k i j hk h
+
+/-- … and label 0 exactly when no anomaly covers the cell -/
+theorem sub_label_zero_iff (anoms : List ((Nat × Nat) × List Nat)) (n p i j : Nat)
+    (h : ValidSub 0 anoms n p) :
+    subLabelAt anoms 0 i j = 0 ↔
+      ∀ k, ∀ hk : k < anoms.length, ¬ ((anoms[k]).1.1 ≤ i ∧ i < (anoms[k]).1.2 ∧ j ∈ (anoms[k]).2) := by
+  constructor
+  · intro h0 k hk hc
+    have := (subLabel_iff anoms n p k i j hk h).2 hc
+    omega
+  · intro hall
+    by_contra hne
+    obtain ⟨idx, hidx, _, hc⟩ := subLabelAt_val anoms 0 i j hne
+    exact hall idx hidx hc
+
 /-- non-vacuity: adjacent anomalies, a point anomaly, anomalies touching both ends -/
 example : ValidIv 0 [(0, 2), (2, 3), (5, 8)] 8 := by simp [ValidIv]
 example : collS2D [(0, 2), (2, 3), (5, 8)] 8 = [1, 1, 2, 0, 0, 3, 3, 3] := by decide
@@ -78,5 +108,7 @@ example : ValidCps [1, 2, 7] 8 := by
   intro c hc
   simp only [List.mem_cons, List.not_mem_nil, or_false] at hc
   rcases hc with rfl | rfl | rfl <;> omega
+example : ValidSub 0 [((0, 2), [1]), ((2, 3), [0, 2]), ((5, 8), [0, 1, 2])] 8 3 := by simp [ValidSub]
+example : subS2D [((0, 2), [1]), ((2, 3), [0, 2])] 4 3 = [[0, 1, 0], [0, 1, 0], [2, 0, 2], [0, 0, 0]] := by decide
 
 end Skc
